@@ -43,15 +43,16 @@ type instReq struct {
 // G is the state of one program generation.
 type G struct {
 	*progen.G
-	gtypes  []*GType
-	gfuncs  []*GFunc
-	named   []*Ty
-	list    *GType
-	tinst   map[string]string
-	finst   map[string]string
-	pending []instReq
-	argKeys map[string]map[string]bool // template name -> distinct argument lists
-	compArg map[string]bool            // template name -> instantiated with a composite argument
+	gtypes    []*GType
+	gfuncs    []*GFunc
+	named     []*Ty
+	list      *GType
+	listFuncs []*GFunc
+	tinst     map[string]string
+	finst     map[string]string
+	pending   []instReq
+	argKeys   map[string]map[string]bool // template name -> distinct argument lists
+	compArg   map[string]bool            // template name -> instantiated with a composite argument
 }
 
 func (g *G) instKey(name string, args []*Ty) string {
@@ -1266,7 +1267,7 @@ func (g *G) genList() {
 	build.body = cat("\tvar l ", pl, "\n\tfor _, v := range vs {\n\t\tl = ", fref(push, []*Ty{T}), "(l, v)\n\t}\n\trec.E(", g.Ev(), ", ", fref(length, []*Ty{T}), "(l))\n\treturn l\n")
 	items := &GFunc{name: g.Top("Items"), params: []string{"T"}, class: []int{cAny}, fnames: []string{"l"}, formals: []*Ty{pl}, results: []*Ty{sliceOf(T)}}
 	items.body = cat("\tvar out ", sliceOf(T), "\n\tfor ; l != nil; l = l.Rest {\n\t\tout = append(out, l.First)\n\t}\n\treturn out\n")
-	g.gfuncs = append(g.gfuncs, push, length, build, items)
+	g.listFuncs = []*GFunc{push, length, build, items}
 	g.Tag("generic-type:recursive-list")
 }
 
@@ -1325,6 +1326,22 @@ func Generate(t *rapid.T, px string) gobatch.Program {
 	for fc.budget > 0 {
 		parts = append(parts, fc.siteStmt())
 	}
+	if g.list != nil {
+		// the recursive list is used through variables only (constant arguments next to a
+		// parameter of recursive type fail in gomacro for plain recursive types too)
+		for i, n := 0, g.Int(1, 3, "list-uses"); i < n; i++ {
+			arg := []*Ty{g.closedType(cAny, 2)}
+			vs, l := g.Local("vs"), g.Local("l")
+			st := sliceOf(arg[0])
+			use := cat(vs, " := ", fc.construct(st, st, 2), "\n", l, " := ", fref(g.listFuncs[2], arg), "(", vs, ")\n",
+				"rec.E(", g.Ev(), ", ", fref(g.listFuncs[1], arg), "(", l, "), ", fref(g.listFuncs[3], arg), "(", l, "))\n")
+			if g.Bool("list-in-closure") {
+				u := use
+				use = func(s *side) string { return "func() {\n" + progen.Indent(u(s)) + "}()\n" }
+			}
+			parts = append(parts, use)
+		}
+	}
 	parts = append(parts, fc.record())
 	body := cat(parts...)
 	plain = append(plain, func(s *side) string { return "func " + entry + "() {\n" + progen.Indent(body(s)) + "}" })
@@ -1336,10 +1353,14 @@ func Generate(t *rapid.T, px string) gobatch.Program {
 	for _, x := range plain[:nNamed] {
 		p.Decls = append(p.Decls, x(gs))
 	}
-	for _, gt := range g.gtypes {
+	declTypes := g.gtypes
+	if g.list != nil {
+		declTypes = append([]*GType{g.list}, g.gtypes...)
+	}
+	for _, gt := range declTypes {
 		p.Decls = append(p.Decls, "type "+gt.name+"#["+strings.Join(gt.params, ", ")+"] "+gt.under.R(gs))
 	}
-	for _, gf := range g.gfuncs {
+	for _, gf := range append(append([]*GFunc{}, g.listFuncs...), g.gfuncs...) {
 		p.Decls = append(p.Decls, "func "+gf.name+"#["+strings.Join(gf.params, ", ")+"]"+gf.signature()(gs)+" {\n"+gf.body(gs)+"}")
 	}
 	for _, x := range plain[nNamed:] {
